@@ -12,6 +12,7 @@
 #include <map>
 #include <memory>
 #include <semaphore.h>
+#include <cerrno>
 #include <thread>
 #include <unordered_map>
 #include <chrono>
@@ -19,7 +20,8 @@
 
 namespace verif {
 
-struct SchedAbort {};   // unwinds threads that are blocked when an execution ends in deadlock
+struct SchedAbort {};
+inline void semWait(sem_t * s) { while(sem_wait(s) == -1 && errno == EINTR) {} }   // the watchdog's SIGALRM must not wake a parked thread   // unwinds threads that are blocked when an execution ends in deadlock
 
 enum TState { T_RUNNABLE, T_WAIT_MUTEX, T_WAIT_CV, T_WAIT_CV_TIMED, T_WAIT_JOIN, T_SPIN, T_DONE };
 enum { MAXT = 6 };
@@ -44,6 +46,13 @@ struct VThread {
 	const char * lastTag;
 };
 
+struct Worker {
+	std::thread th;
+	sem_t go, done;
+	VThread * assigned;
+	bool busy;
+};
+
 struct DeadlockInfo {
 	bool happened;
 	std::vector<int> blockedIds;
@@ -60,6 +69,7 @@ public:
 	long progress;         // points passed by non-spinning operations
 	long maxSteps;
 	std::vector<VThread *> threads;
+	std::vector<Worker *> pool;    // parked OS threads reused across executions (thread creation dominates otherwise)
 	DeadlockInfo deadlock;
 	bool horizonHit;
 	int preemptions;
@@ -103,7 +113,16 @@ public:
 		parent->vc.c[parent->id]++;
 		t->vc = parent->vc;
 		threads.push_back(t);
-		t->th = std::thread([this, t]() { threadMain(t); });
+		size_t wi = (size_t)t->id - 1;
+		while(pool.size() <= wi) {
+			Worker * w = new Worker();
+			sem_init(&w->go, 0, 0); sem_init(&w->done, 0, 0); w->assigned = nullptr; w->busy = false;
+			w->th = std::thread([this, w]() { for(;;) { semWait(&w->go); threadMain(w->assigned); sem_post(&w->done); } });
+			w->th.detach();
+			pool.push_back(w);
+		}
+		pool[wi]->assigned = t; pool[wi]->busy = true;
+		sem_post(&pool[wi]->go);
 		return t->id;
 	}
 
@@ -118,7 +137,7 @@ public:
 
 	// must be called on thread 0 after the execution ended (normally or by SchedAbort)
 	void end() {
-		for(size_t i = 1; i < threads.size(); ++i) if(threads[i]->th.joinable()) threads[i]->th.join();
+		for(size_t i = 0; i < pool.size(); ++i) if(pool[i]->busy) { semWait(&pool[i]->done); pool[i]->busy = false; }
 		active = false; aborting = false;
 		me() = nullptr;
 	}
@@ -234,7 +253,7 @@ inline void Sched::switchFrom(VThread * m, const char * tag) {
 		// thread 0 detected it: let the others unwind first
 		bool others = false;
 		for(size_t i = 1; i < threads.size(); ++i) if(threads[i]->st != T_DONE) others = true;
-		if(others) { abortNext(); sem_wait(&m->sem); }
+		if(others) { abortNext(); semWait(&m->sem); }
 		throw SchedAbort{};
 	}
 	int freeUpTo;
@@ -250,13 +269,13 @@ inline void Sched::switchFrom(VThread * m, const char * tag) {
 	cur = next->id;
 	sem_post(&next->sem);
 	if(m->st == T_DONE) return;
-	sem_wait(&m->sem);
+	semWait(&m->sem);
 	if(aborting) throw SchedAbort{};
 }
 
 inline void Sched::threadMain(VThread * t) {
 	me() = t;
-	sem_wait(&t->sem);
+	semWait(&t->sem);
 	if(!aborting) {
 		try { t->body(); }
 		catch(SchedAbort &) {}
@@ -369,6 +388,8 @@ struct VCondVar {
 		VMutex * mx = lock.mutex();
 		if(s.aborting) throw SchedAbort{};
 		++waits;
+		// the waiter can be preempted between evaluating its predicate and parking (it still holds the mutex)
+		s.point("cv.before-park");
 		mx->unlock();
 		m->st = timed ? T_WAIT_CV_TIMED : T_WAIT_CV;
 		m->waitObj = &mx->owner;
